@@ -299,7 +299,7 @@ def conc_check(ctx, module, theorems, props, what, assumptions, extra_quick=('ca
     ctx.log("conc: %d cases, %d lines, %d implementation-level failures for %s, %d differing cases (%d not linearizable)" % (cases, lines, nfail, props, diffs, nonlin))
     cov = cov0({
         "evaluations": lines, "distinct_nontrivial": len(distinct),
-        "rule": rule or "2-4 worker threads run programs of 1-3 calls (get, insert/insert_bytes, delete, compare-and-swap, increment, insert-if-absent, JSON patch; automatic, zero and explicit timestamps around the pinned wall clock) on one or two keys of the real store (memory-only, persistent, persistent+cache; background flusher running); a controller parks every worker at each scheduling point (hook) and a seeded random scheduler picks who goes on; the Lean system replays the same choices and must give the same at/return answer, response, published timestamp and version-clock value on every line; case families: mixed, counters, JSON documents, raw values with explicit timestamps. Distinct = SHA-1 of (operation, answer).",
+        "rule": rule or "2-4 worker threads run programs of 1-3 calls (get, insert/insert_bytes, delete, compare-and-swap, increment, insert-if-absent, JSON patch; automatic, zero and explicit timestamps around the pinned wall clock) on one or two keys of the real store (memory-only, persistent, persistent+cache; background flusher running); a controller parks every worker at each scheduling point (hook) and a seeded random scheduler picks who goes on; the Lean system replays the same choices and must give the same at/return answer, response, published timestamp and version-clock value on every line; case families: mixed, counters, JSON documents, raw values with explicit timestamps; plus exhaustive enumeration of ALL schedules (lexicographic, re-executed from scratch, capped per set) of small program sets: 2-3 threads x 1-2 calls on one key of a memory-only store. Distinct = SHA-1 of (operation, answer).",
         "cases": cases, "lean_lines": lines, "kind_histogram": kinds, "model_outcome_kinds": hows,
         "implementation_failures": nfail, "lean_differences": diffs, "non_linearizable_histories": nonlin,
         "asan_processes": getattr(ctx, "asan_runs", 0),
